@@ -69,7 +69,8 @@ def tuples_for(shape_lens, full):
         yield [x[0] for x in combo], [x[1] for x in combo], [x[2] for x in combo]
 
 
-SHAPES = {'d1': [('a', 3)], 'd2': [('p', 2), ('a', 3)], 'rec': [('t', None), ('q', 2)], 'd3': [('p', 2), ('q', 2), ('r', 2)]}
+SHAPES = {'d1': [('a', 3)], 'd2': [('p', 2), ('a', 3)], 'rec': [('t', None), ('q', 2)], 'rec1': [('t', None), ('q', 2)], 'd3': [('p', 2), ('q', 2), ('r', 2)]}
+# 'rec1' / 'prec1': the target is the ONLY record variable of the file (records packed back to back: own contiguity shortcuts)
 
 
 def build_cases(shape_name, fmt, relax, api, isread, tuples, per_case=120, np=1):
@@ -91,13 +92,13 @@ def build_cases(shape_name, fmt, relax, api, isread, tuples, per_case=120, np=1)
         c.op('*', 'def_var', name='before', xtype='short', dims=[0])
         c.op('*', 'def_var', name='target', xtype='int', dims=tdims)
         c.op('*', 'def_var', name='after', xtype='int', dims=[0])
-        if isrec: c.op('*', 'def_var', name='rafter', xtype='short', dims=[1])
+        if isrec and shape_name != 'rec1': c.op('*', 'def_var', name='rafter', xtype='short', dims=[1])
         c.op('*', 'enddef', f=0)
         shape = [NREC if l is None else l for n, l in dims]
         c.op('*', 'put', f=0, form='var', v=0, coll=1, mem='short', tag=40, scale=1)
         c.op('*', 'put', f=0, form='vara', v=1, s=[0] * len(shape), c=shape, coll=1, mem='int', tag=41, scale=1)
         c.op('*', 'put', f=0, form='var', v=2, coll=1, mem='int', tag=42, scale=1)
-        if isrec: c.op('*', 'put', f=0, form='vara', v=3, s=[0], c=[NREC], coll=1, mem='short', tag=43, scale=1)
+        if isrec and shape_name != 'rec1': c.op('*', 'put', f=0, form='vara', v=3, s=[0], c=[NREC], coll=1, mem='short', tag=43, scale=1)
         c.op('*', 'buffer_attach', f=0, size=4096)
         s0 = c.op(0, 'snap', path='a.nc')
         ctx = []
@@ -201,7 +202,7 @@ def judge(ck, c, ctx, s0, shape, isrec, r, api, isread, relax):
 
 
 # ---------------------------------------------------------------- several requests completed together
-PSHAPES = {'p1': [('a', 6)], 'p2': [('p', 3), ('a', 4)], 'prec': [('t', None), ('q', 3)]}
+PSHAPES = {'p1': [('a', 6)], 'p2': [('p', 3), ('a', 4)], 'prec': [('t', None), ('q', 3)], 'prec1': [('t', None), ('q', 3)]}
 PNREC = 3
 
 
@@ -226,13 +227,13 @@ def build_pair_cases(shape_name, fmt, api, pairs, per_case=80):
         c.op('*', 'def_var', name='before', xtype='short', dims=[0])
         c.op('*', 'def_var', name='target', xtype='int', dims=list(range(1, len(alld))))
         c.op('*', 'def_var', name='after', xtype='int', dims=[0])
-        if isrec: c.op('*', 'def_var', name='rafter', xtype='short', dims=[1])
+        if isrec and shape_name != 'prec1': c.op('*', 'def_var', name='rafter', xtype='short', dims=[1])
         c.op('*', 'enddef', f=0)
         shape = [PNREC if l is None else l for n, l in dims]
         c.op('*', 'put', f=0, form='var', v=0, coll=1, mem='short', tag=40, scale=1)
         c.op('*', 'put', f=0, form='vara', v=1, s=[0] * len(shape), c=shape, coll=1, mem='int', tag=41, scale=1)
         c.op('*', 'put', f=0, form='var', v=2, coll=1, mem='int', tag=42, scale=1)
-        if isrec: c.op('*', 'put', f=0, form='vara', v=3, s=[0], c=[PNREC], coll=1, mem='short', tag=43, scale=1)
+        if isrec and shape_name != 'prec1': c.op('*', 'put', f=0, form='vara', v=3, s=[0], c=[PNREC], coll=1, mem='short', tag=43, scale=1)
         c.op('*', 'buffer_attach', f=0, size=8192)
         s0 = c.op(0, 'snap', path='a.nc')
         ctx = []
@@ -305,7 +306,7 @@ def main(tier=None):
     for fmt in fmts:
         for relax in (0, 1):
             for isread in (False, True):
-                for sh in (['d1', 'd2', 'rec', 'd3'] if thorough else ['d1', 'd2', 'rec']):
+                for sh in (['d1', 'd2', 'rec', 'rec1', 'd3'] if thorough else ['d1', 'd2', 'rec', 'rec1']):
                     lens = [NREC if l is None else l for n, l in SHAPES[sh]]
                     full = list(tuples_for(lens, thorough))
                     if not thorough and sh != 'd1': full = full[::3]
